@@ -276,6 +276,23 @@ def lit(kind, text):
     return ["lit", kind, text]
 
 
+def str_variant(rng, a):
+    """A string literal equal or nearly equal to the literal a (same text, other quotes, letter case, blanks, escapes)."""
+    text = a[2]
+    q, inner = text[0], text[1:-1]
+    r = rng.random()
+    if "\\" in inner or r < 0.25:
+        return lit("str", text)
+    if r < 0.5:
+        return lit("str", q + inner.swapcase() + q)
+    if r < 0.65:
+        return lit("str", q + inner + " " + q)
+    if r < 0.8:
+        other = '"' if q == "'" else "'"
+        return lit("str", other + inner + other) if other not in inner else lit("str", text)
+    return lit("str", q + "".join("\\u%04x" % ord(c) if ord(c) < 0x10000 and c not in "'\"" and rng.random() < 0.5 else c for c in inner) + q)
+
+
 class Gen:
     def __init__(self, rng, env_names, max_pow=2):
         self.rng = rng
@@ -348,7 +365,11 @@ class Gen:
                 return ["bin", rng.choice(["==", "!=", "<=", ">=", "<", ">"]), self.gen("rat", d - 1), self.gen("rat", d - 1)]
             if r < 0.8:
                 k = rng.choice(["str", "bool"])
-                return ["bin", rng.choice(["==", "!="]), self.gen(k, d - 1), self.gen(k, d - 1)]
+                a = self.gen(k, d - 1)
+                b = self.gen(k, d - 1)
+                if k == "str" and a[0] == "lit" and rng.random() < 0.6:
+                    b = str_variant(rng, a)
+                return ["bin", rng.choice(["==", "!="]), a, b]
             k = rng.choice(["set:int", "set:int", "set:str", "set:rat", "set:set:int"])
             return ["bin", rng.choice(["==", "!=", "<=", ">=", "<", ">"]), self.gen(k, d - 1), self.gen(k, d - 1)]
         if kind == "str":
@@ -507,6 +528,13 @@ def targeted():
         for a in ("min", "max", "count", "size", "Min", "e1"):
             for s in samples[k]:
                 out.append((["attr", s, a], ["print"]))
+    # string equality is exact: letter case, blanks, escapes versus raw characters
+    for x, y in (("'a'", "'A'"), ("'ab'", "'aB'"), ("'a'", "'a '"), ("'a'", '"a"'), ("'\\u0061'", "'a'"), ("'\xe9'", "'\\u00e9'"), ("'\xe9'", "'\xc9'"),
+                 ("'straSSe'", "'strasse'"), ("''", "' '"), ("'\\n'", "'\\N'"), ("'\\t'", "' '")):
+        for op in ("==", "!="):
+            out.append((["bin", op, L("str", x), L("str", y)], ["print"]))
+        out.append((["bin", "==", ["set", [L("str", x)]], ["set", [L("str", y)]]], ["print"]))
+        out.append((["attr", ["set", [L("str", x), L("str", y)]], "count"], ["print"]))
     # division / modulo sign conventions and zero divisors
     for a in ("7", "-7", "7.5", "-7.5", "0"):
         for b in ("2", "-2", "0", "0.0", "2.5", "-2.5", "1/3"):
